@@ -735,7 +735,7 @@ class Engine:
                 callee = self.facts.fns[c[1]]
                 if callable(self.inline) and not self.inline(callee.name):
                     return None
-                if callee.name in self.stack:
+                if self.stack.count(callee.name) >= 3:
                     return None
                 spread = list(args[1][1]) if len(args) > 1 and args[1][0] == "tuple" else ([] if len(args) < 2 or args[1][0] == "unit" else [args[1]])
                 a0 = args[0] if args[0][0] == "ref" else ("ref", ("loc", c, ()), False)
@@ -747,7 +747,7 @@ class Engine:
         r = t.get("resolved")
         if r and r in self.facts.fns and t.get("resolved_kind") == "Item":
             callee = self.facts.fns[r]
-            if callee.name in self.stack:
+            if self.stack.count(callee.name) >= 3:
                 return None
             ok = False
             if self.inline:
@@ -808,13 +808,13 @@ class Engine:
                 break
         if c[0] == "closure" and self.facts is not None and c[1] in self.facts.fns:
             callee = self.facts.fns[c[1]]
-            if callee.name in self.stack:
+            if self.stack.count(callee.name) >= 3:
                 return None
             a0 = fval if fval[0] == "ref" else ("ref", ("loc", c, ()), False)
             return (callee, [a0] + list(fargs))
         if c[0] == "fn" and self.facts is not None and c[1] in self.facts.fns:
             callee = self.facts.fns[c[1]]
-            if callee.name in self.stack:
+            if self.stack.count(callee.name) >= 3:
                 return None
             return (callee, list(fargs))
         return None
@@ -852,6 +852,69 @@ class Engine:
             else:
                 sp.end = e
                 outs.append((None, sp))
+        return outs
+
+    def iter_elements(self, path, bb, src, base_item, depth=0):
+        """Element(s) the iterator value `src` yields for one element `base_item` of the underlying collection, with lazy
+        adaptors applied: [(element or None, path)] — None means the adaptor drops this element (filter / filter_map)."""
+        if depth > 4 or src[0] != "app" or len(src[2]) < 1:
+            return [(base_item, path)]
+        nm = str(src[1])
+        m = re.search(r"iter::Iterator>::(map|filter_map|filter|enumerate|cloned|copied|by_ref|inspect)(::<.*>)?$", nm)
+        if not m:
+            return [(base_item, path)]
+        meth = m.group(1)
+        inner = src[2][0]
+        inner = self.deref_val(path, inner) if inner[0] == "ref" else inner
+        outs = []
+        for el, p in self.iter_elements(path, bb, inner, base_item, depth + 1):
+            if el is None:
+                outs.append((None, p))
+                continue
+            if meth in ("cloned", "copied", "by_ref", "inspect"):
+                outs.append((self.deref_val(p, el) if meth in ("cloned", "copied") and el[0] == "ref" else el, p))
+                continue
+            if meth == "enumerate":
+                outs.append((("tuple", (("sym", "index@bb%d" % bb), el)), p))
+                continue
+            f = src[2][1] if len(src[2]) > 1 else None
+            if f is None or self.closure_target(p, f, []) is None:
+                outs.append((("app", nm, (el,)), p))
+                continue
+            xa = ("ref", ("loc", el, ()), False) if meth == "filter" else el
+            rs = self.call_closure(p, bb, f, [xa])
+            if rs is None:
+                outs.append((("app", nm, (el,)), p))
+                continue
+            for r, sp in rs:
+                if r is None:
+                    outs.append((None, sp)) if sp.end is None else outs.append((("dead",), sp))
+                elif meth == "map":
+                    outs.append((r, sp))
+                elif meth == "filter_map":
+                    kv = self.known_variant(sp, r)
+                    if kv == "Some":
+                        outs.append((r[3][0] if r[0] == "adt" else ("field", ("downcast", r, "Some"), "0"), sp))
+                    elif kv == "None":
+                        outs.append((None, sp))
+                    else:
+                        pn = sp.fork()
+                        self.assume(pn, ("isvar", r, "None"), True)
+                        outs.append((None, pn))
+                        self.assume(sp, ("isvar", r, "Some"), True)
+                        outs.append((("field", ("downcast", r, "Some"), "0"), sp))
+                else:   # filter
+                    d = self.decide(sp, r)
+                    if r == ("bool", True) or d is True:
+                        outs.append((el, sp))
+                    elif r == ("bool", False) or d is False:
+                        outs.append((None, sp))
+                    else:
+                        pn = sp.fork()
+                        self.assume(pn, r, False)
+                        outs.append((None, pn))
+                        self.assume(sp, r, True)
+                        outs.append((el, sp))
         return outs
 
     def combinator(self, path, bb, t, args, go):
@@ -987,6 +1050,53 @@ class Engine:
                     else:
                         outs.append(finish(sp, r))
             return outs
+        m = re.search(r"iter::Iterator>::(try_fold|fold)(::<.*>)?$", nm)
+        if m and len(args) == 3:
+            meth = m.group(1)
+            f = args[2]
+            if self.closure_target(path, f, []) is None:
+                return None
+            item = ("sym", "item@bb%d" % bb)
+            self_ty = t.get("callee_self") or ""
+            if self_ty.startswith("std::slice::Iter") or "btree_set::Iter" in self_ty or "hash_map::Iter" in self_ty or "btree_map::Iter" in self_ty:
+                item = ("ref", ("loc", item, ()), False)
+            hook = getattr(self.model, "iter_item", None)
+            dty = (t.get("dest") or {}).get("ty", "")
+            src = self.deref_val(path, args[0]) if args[0][0] == "ref" else args[0]
+            acc0 = args[1]
+            outs = []
+            p0 = path.fork()
+            p0.events.append(("iter-exhausted", bb, nm, src))
+            done = acc0 if meth == "fold" else (("adt", RES, "Ok", (acc0,)) if "Result<" in dty else (("adt", OPT, "Some", (acc0,)) if "Option<" in dty else ("adt", "std::ops::ControlFlow", "Continue", (acc0,))))
+            outs.append(finish(p0, done))
+            if hook is not None:
+                it2 = hook(self, path, bb, t, args)
+                if it2 is not None:
+                    item = it2
+            path.events.append(("iter-item", bb, nm, src, item))
+            rs = self.call_closure(path, bb, f, [acc0, item])
+            if rs is None:
+                return None
+            for r, sp in rs:
+                if r is None:
+                    outs.append(dead(sp))
+                elif meth == "fold":
+                    outs.append(cut(sp))
+                else:
+                    kv = self.known_variant(sp, r)
+                    if kv in ("Err", "None", "Break"):
+                        outs.append(finish(sp, r))
+                    elif kv in ("Ok", "Some", "Continue"):
+                        outs.append(cut(sp))
+                    else:
+                        bad_v = "Err" if "Result<" in dty else ("None" if "Option<" in dty else "Break")
+                        good_v = "Ok" if "Result<" in dty else ("Some" if "Option<" in dty else "Continue")
+                        pb = sp.fork()
+                        self.assume(pb, ("isvar", r, bad_v), True)
+                        outs.append(finish(pb, r))
+                        self.assume(sp, ("isvar", r, good_v), True)
+                        outs.append(cut(sp))
+            return outs
         m = re.search(r"iter::Iterator>::(for_each|try_for_each|position|find|any|all|find_map)(::<.*>)?$", nm)
         if m and len(args) >= 2:
             meth = m.group(1)
@@ -1008,11 +1118,26 @@ class Engine:
             p0.events.append(("iter-exhausted", bb, nm, src))
             outs.append(finish(p0, exhausted))
             # one element
+            hook = getattr(self.model, "iter_item", None)
+            if hook is not None:
+                it2 = hook(self, path, bb, t, args)
+                if it2 is not None:
+                    item = it2
             path.events.append(("iter-item", bb, nm, src, item))
-            xa = ("ref", ("loc", item, ()), False) if meth == "find" else item
-            rs = self.call_closure(path, bb, f, [xa])
-            if rs is None:
-                return None
+            rs = []
+            for el, pe in self.iter_elements(path, bb, src, item):
+                if el is None:
+                    outs.append(cut(pe))       # the adaptor chain drops this element: on to the next one
+                    continue
+                if el == ("dead",):
+                    outs.append(dead(pe))
+                    continue
+                item = el
+                xa = ("ref", ("loc", el, ()), False) if meth == "find" else el
+                rs1 = self.call_closure(pe, bb, f, [xa])
+                if rs1 is None:
+                    return None
+                rs.extend(rs1)
             for r, sp in rs:
                 if r is None:
                     outs.append(dead(sp))
@@ -1115,7 +1240,17 @@ class Engine:
             return [go(t["target"], path)]
         if k == "assert":
             c = self.operand(path, t["cond"])
-            path.events.append(("assert", bb, t["msg"], c))
+            # operands of the checked arithmetic the assertion guards (x = a OP b; assert !x.1), for guard analyses
+            opinfo = None
+            try:
+                cl = t["cond"].get("p", {}).get("l") if isinstance(t["cond"], dict) else None
+                for st in reversed(fn.blocks[bb]["stmts"]):
+                    if st["k"] == "assign" and st["p"]["l"] == cl and not st["p"]["pj"] and st["rv"]["k"] == "binop" and st["rv"]["op"].endswith("WithOverflow"):
+                        opinfo = (st["rv"]["op"], self.operand(path, st["rv"]["a"]), self.operand(path, st["rv"]["b"]))
+                        break
+            except Exception:
+                opinfo = None
+            path.events.append(("assert", bb, t["msg"], c, opinfo))
             return [go(t["target"], path)]
         if k == "switch":
             d = self.operand(path, t["discr"])
